@@ -1371,7 +1371,11 @@ impl Stdfs {
     /// assert_vfs_remove_all!(vfs, &tmpdir);
     /// ```
     pub fn readlink_abs<T: AsRef<Path>>(link: T) -> RvResult<PathBuf> {
-        Ok(StdfsEntry::from(link)?.alt_buf())
+        let entry = StdfsEntry::from(link)?;
+        if !entry.is_symlink() {
+            return Err(PathError::is_not_symlink(entry.path()).into());
+        }
+        Ok(entry.alt_buf())
     }
 
     /// Removes the given empty directory or file
